@@ -20,7 +20,7 @@ Proof.
   end; cbn [snd optimize_alpha scale_16 set_reductions]; auto.
 Qed.
 
-Theorem optimize_png_lossless_partial (L : leaves) e o (inflate : list Z -> option (list Z)) p out pic :
+Theorem optimize_png_lossless_partial e o (inflate : list Z -> option (list Z)) p out pic :
   optimize_alpha o = false -> scale_16 o = false -> means pic (raw p) ->
   (forall d s, inflate (z_deflate e d s) = Some s) ->
   (exists stream, inflate (idat_data p) = Some stream /\
@@ -36,12 +36,12 @@ Proof.
   destruct r as [c|].
   - match type of H with bind (bind ?X _) _ = _ => destruct X as [fr|?|?] eqn:Efr end; cbn [bind] in H; try discriminate.
     injection H as <-. eexists. split; [reflexivity|]. intros (C1 & C2 & C3 & C4 & C5).
-    eapply (emitted_file_decodes_partial L e o' (raw p)); eauto; congruence.
+    eapply (emitted_file_decodes_partial e o' (raw p)); eauto; congruence.
   - cbn [bind] in H. injection H as <-. eexists. split; [reflexivity|]. intros (C1 & C2 & C3 & C4 & C5).
     rewrite (output_decodes inflate _ C1 C2 C3 C4 C5). cbn [raw idat_data]. rewrite Hinf. exact Hdec.
 Qed.
 
-Theorem optimize_from_memory_lossless_partial (L : leaves) e o (inflate : list Z -> option (list Z)) bytes out pic nm ih rest :
+Theorem optimize_from_memory_lossless_partial e o (inflate : list Z -> option (list Z)) bytes out pic nm ih rest :
   optimize_alpha o = false -> scale_16 o = false ->
   bytes_ok bytes ->
   (* the input is a valid datastream that the specification decodes to pic *)
@@ -65,13 +65,13 @@ Proof.
   destruct (is_fully_optimized _ _ o); injection H as <-; [left; reflexivity|right].
   destruct (Hside p eq_refl) as [Hu Hw].
   destruct (from_slice_means e o inflate bytes p pic nm ih rest Hok Ep Hparse Hdec H1 H2 H3 Hz Hu Hw) as (Hwf & Hsem & Hstream).
-  eapply (optimize_png_lossless_partial L e o inflate p); eauto. split; assumption.
+  eapply (optimize_png_lossless_partial e o inflate p); eauto. split; assumption.
 Qed.
 
 (* ---------------------------------------------------------------- the same with alpha optimisation allowed (C03) *)
 From OxiVerif Require Import Proofs.LiftAlpha.
 
-Theorem optimize_png_alpha_partial (L : leaves) e o (inflate : list Z -> option (list Z)) p out pic :
+Theorem optimize_png_alpha_partial e o (inflate : list Z -> option (list Z)) p out pic :
   scale_16 o = false -> means pic (raw p) ->
   (forall d s, inflate (z_deflate e d s) = Some s) ->
   (exists stream, inflate (idat_data p) = Some stream /\
@@ -89,7 +89,7 @@ Proof.
   - match type of H with bind (bind ?X _) _ = _ => destruct X as [fr|?|?] eqn:Efr end; cbn [bind] in H; try discriminate.
     injection H as <-. eexists. split; [reflexivity|]. intros (C1 & C2 & C3 & C4 & C5).
     assert (Ham : ameans pic (raw p)) by (exists pic; split; [exact Hm|apply pic_aequiv_refl]).
-    destruct (emitted_stream_alpha_partial L e o' (raw p) _ c pic ltac:(congruence) Ham Er) as (d & st & pic' & Ed & Hd & Hq).
+    destruct (emitted_stream_alpha_partial e o' (raw p) _ c pic ltac:(congruence) Ham Er) as (d & st & pic' & Ed & Hd & Hq).
     exists pic'. split; [|exact Hq].
     rewrite (output_decodes inflate _ C1 C2 C3 C4 C5). cbn [raw idat_data]. rewrite Ed, Hz. exact Hd.
   - cbn [bind] in H. injection H as <-. eexists. split; [reflexivity|]. intros (C1 & C2 & C3 & C4 & C5).
@@ -97,7 +97,7 @@ Proof.
     rewrite (output_decodes inflate _ C1 C2 C3 C4 C5). cbn [raw idat_data]. rewrite Hinf. exact Hdec.
 Qed.
 
-Theorem optimize_from_memory_alpha_partial (L : leaves) e o (inflate : list Z -> option (list Z)) bytes out pic nm ih rest :
+Theorem optimize_from_memory_alpha_partial e o (inflate : list Z -> option (list Z)) bytes out pic nm ih rest :
   scale_16 o = false ->
   bytes_ok bytes ->
   spec_parse_png bytes = Some ((nm, ih) :: rest) ->
@@ -119,5 +119,5 @@ Proof.
   destruct (is_fully_optimized _ _ o); injection H as <-; [left; reflexivity|right].
   destruct (Hside p eq_refl) as [Hu Hw].
   destruct (from_slice_means e o inflate bytes p pic nm ih rest Hok Ep Hparse Hdec H1 H2 H3 Hz Hu Hw) as (Hwf & Hsem & Hstream).
-  eapply (optimize_png_alpha_partial L e o inflate p); eauto. split; assumption.
+  eapply (optimize_png_alpha_partial e o inflate p); eauto. split; assumption.
 Qed.
